@@ -127,7 +127,11 @@ pub fn exp_pair(t: &mut Tape, cx: &mut Cx, km: i32) -> (i32, i32) {
 
 /// `a * 2^k`, exact (lanes stay normal or are zero in the regime).
 pub fn scaled_by<S: Lift, const N: usize>(a: &[S; N], k: i32) -> [S; N] {
-    scale_s(a, S::of_f64(p2(k)))
+    let r = scale_s(a, S::of_f64(p2(k)));
+    // exactness of the scaling: every lane stays zero or normal
+    let min_normal = tiny::<S>() / S::eps();
+    debug_assert!(r.iter().all(|x| x.f() == 0.0 || (x.f().abs() >= min_normal && x.f().is_finite())), "scaling by 2^{} left the normal range: {:?}", k, a);
+    r
 }
 
 fn f_arr<S: Lift, const N: usize>(a: &[S; N]) -> [f64; N] {
@@ -209,6 +213,12 @@ pub fn scaled<S: Lift, V: Sp<S, N>, const N: usize>(t: &mut Tape, cx: &mut Cx) -
     };
     let (ka, kb) = exp_pair(t, cx, km);
     cx.label(scale_label(ka));
+    if ka.abs().max(kb.abs()) >= km / 2 {
+        cx.label("an operand in the outer half of the exponent range");
+    }
+    if (ka + kb).abs() > km + km / 3 {
+        cx.label("|a|^2 |b|^2 not representable (|ka + kb| > 4/3 kmax)");
+    }
     let (a1, b1) = (scaled_by(&a, ka), scaled_by(&b, kb));
     let (af, bf) = (f_arr(&a), f_arr(&b));
     let (m2a, m2b) = (rf::dot(&af, &af), rf::dot(&bf, &bf));
@@ -453,7 +463,7 @@ pub fn homog_scaled<S: Lift>(t: &mut Tape, cx: &mut Cx) -> CaseResult {
         }
     };
     cx.label(scale_label(kw));
-    let xs = scaled_by(&xyz, kx);
+    let xs = scale_s(&xyz, S::of_f64(p2(kx)));
     let v = [xs[0], xs[1], xs[2], w * S::of_f64(p2(kw))];
     cx.set_nontrivial((kw != 0 || kx != 0) && xyz.iter().all(|x| !x.is_zero()));
     sample!(cx, "Vec4<{}> xyz={:?} * 2^{} w={:?} * 2^{}", S::NAME, xyz, kx, w, kw);
@@ -493,19 +503,19 @@ pub fn checks(checks: &mut Vec<Check>) {
         ($V:ident, $N:expr, $q:expr) => {{
             const N: usize = $N;
             let q: u64 = $q;
-            checks.push(Check { name: concat!("scale-", stringify!($V), "-f64"), about: g, kind: Kind::Tape { len: 48 * N + 128, quick: q, thorough: q * 100, f: scaled::<f64, $V<f64>, N> } });
-            checks.push(Check { name: concat!("scale-", stringify!($V), "-f32"), about: g, kind: Kind::Tape { len: 48 * N + 128, quick: q, thorough: q * 100, f: scaled::<f32, $V<f32>, N> } });
+            checks.push(Check { name: concat!("scale-", stringify!($V), "-f64"), about: g, kind: Kind::Tape { len: 48 * N + 128, quick: q, thorough: q * 60, f: scaled::<f64, $V<f64>, N> } });
+            checks.push(Check { name: concat!("scale-", stringify!($V), "-f32"), about: g, kind: Kind::Tape { len: 48 * N + 128, quick: q, thorough: q * 60, f: scaled::<f32, $V<f32>, N> } });
         }};
     }
-    reg!(Vec2, 2, 3000);
-    reg!(Vec3, 3, 3000);
-    reg!(Vec4, 4, 3000);
-    reg!(Extent2, 2, 2000);
-    reg!(Extent3, 3, 2000);
-    reg!(Vec8, 8, 1500);
-    reg!(Vec16, 16, 1000);
-    reg!(Vec32, 32, 800);
-    reg!(Vec64, 64, 500);
+    reg!(Vec2, 2, 6000);
+    reg!(Vec3, 3, 6000);
+    reg!(Vec4, 4, 6000);
+    reg!(Extent2, 2, 4000);
+    reg!(Extent3, 3, 4000);
+    reg!(Vec8, 8, 3000);
+    reg!(Vec16, 16, 2000);
+    reg!(Vec32, 32, 1200);
+    reg!(Vec64, 64, 800);
     let mut add = |name: &'static str, about: &'static str, len: usize, q: u64, f: fn(&mut Tape, &mut Cx) -> CaseResult| {
         checks.push(Check { name, about, kind: Kind::Tape { len, quick: q, thorough: q * 100, f } });
     };
